@@ -578,6 +578,7 @@ class Replay:
         if r is not None:
             self._consume()
             self.compare_pilots(r["pilots"], "pilots@update")
+            self.compare_warning(r)
             self.pending_bad = None
         r = self._next("apply")
         if r is None:
@@ -685,10 +686,49 @@ class Replay:
     def run(self):
         import contextlib
         import io
-        with warnings.catch_warnings(), contextlib.redirect_stdout(io.StringIO()):
-            warnings.simplefilter("ignore")
+        with warnings.catch_warnings(record=True) as wl, contextlib.redirect_stdout(io.StringIO()):
+            warnings.simplefilter("always")
+            self._wlist, self._wseen = wl, 0
             self._prepare_expected()
             return self._run()
+
+    def new_schedule_warnings(self):
+        """'Invalid schedule provided ...' warnings emitted since the last look."""
+        wl = getattr(self, "_wlist", None)
+        if wl is None:
+            return None
+        new = [str(w.message) for w in wl[self._wseen:] if "Invalid schedule provided" in str(w.message)]
+        self._wseen = len(wl)
+        if len(wl) > 2000:      # keep the list short over long runs
+            del wl[:]
+            self._wseen = 0
+        return new
+
+    def compare_warning(self, r):
+        """C06 inside the simulator: _update_schedules warns exactly when the submitted schedule violates a
+        constraint (spec: Warning(ConsAgg, m)), naming the worst constraint and column."""
+        got = self.new_schedule_warnings()
+        if got is None or "warnAgg" not in r or self.k:
+            return
+        cons = self.var.constraints
+        if cons in ("none", "removed"):
+            self._chk("C06", "schedule_warning(no constraints)", [], got)
+            return
+        if cons != "agg":
+            return
+        w = r["warnAgg"]
+        self._chk("C06", "schedule_warning@%d" % r["t"], bool(w["warn"]), len(got) > 0)
+        if not w["warn"]:
+            return
+        self._chk("C06", "schedule_warning.count@%d" % r["t"], 1, len(got))
+        import re
+        m = re.search(r"Max violation is ([-0-9.e]+) A on (\S+) at time index (\d+)", got[0])
+        self._chk("C06", "schedule_warning.text", "Max violation is <d> A on <constraint> at time index <k>", got[0], m is not None)
+        # reported excess: aggregate - (limit + absolute tolerance 1e-5 A)
+        want = w["ex"] / self.pu - 1e-5
+        self._chk("C06", "schedule_warning.excess@%d" % r["t"], want, float(m.group(1)), close(float(m.group(1)), want, abs_=1e-9))
+        if not w["tie"]:
+            self._chk("C06", "schedule_warning.cell@%d" % r["t"], [w["name"], w["k"]], [m.group(2), int(m.group(3))])
 
     def _prepare_expected(self):
         net = self.net
